@@ -4,7 +4,8 @@
 (* exploration of the condition / part heap machine.                       *)
 (***************************************************************************)
 EXTENDS CondHeap
-CONSTANTS MaxCells, Acts
+CONSTANTS MaxCells, Acts,
+          MolSlots      \* whether MkMol also enumerates explicit list_condition / map_condition arguments
 
 I(n) == IntV(n)
 LeafPool == << Leaf("value", "none", "less_than", <<>>, KwValue(I(2))),
@@ -27,7 +28,8 @@ Next ==
      \/ "MkPart" \in Acts /\ \E k \in Z(IndexLikeIds), v \in Z(ValueLikeIds), c \in Z({o \in CondIds : "key" \notin KindsOf(heap, o)}) :
            MkPart2("list", k, v, c)
      \/ "MkMol" \in Acts /\ \E k \in Z(KeyLikeIds), k2 \in Z(IndexLikeIds), v \in Z(ValueLikeIds), c \in Z(ValueLikeIds),
-                                   lc \in Z(IndexLikeIds), mc \in Z(KeyLikeIds) :
+                                   lc \in (IF MolSlots THEN Z(IndexLikeIds) ELSE {0}),
+                                   mc \in (IF MolSlots THEN Z(KeyLikeIds) ELSE {0}) :
            MkMol(k, k2, v, c, lc, mc)
      \/ "PartFilter" \in Acts /\ \E p \in {o \in Ids : heap[o].kind = "mol"}, isList \in BOOLEAN : PartFilter(p, isList)
 Spec == Init /\ [][Next]_<<heap, last>>
